@@ -28,12 +28,14 @@ THEOREMS = [
     "Lena.C06.bin1d_halfopen",
     "Lena.C06.bin1d_guess_independent",
     "Lena.C06.bin1d_returns",
+    "Lena.C06.bin1d_interp",
     "Lena.C06.getBinOnValue_spec",
     "Lena.C06.getBinOnValue_wrong_length",
     "Lena.C06.inCell_unique",
     "Lena.C06.fill_exact_cell",
     "Lena.C06.fill_out_of_range",
     "Lena.C06.fill_frame",
+    "Lena.C06.fill_wrong_length",
     "Lena.C06.fill_conserves",
     "Lena.C06.fill_wf",
     "Lena.C06.fillAll_conserves",
@@ -44,6 +46,7 @@ THEOREMS = [
     "Lena.C06.checkEdgesIncreasing_err",
     "Lena.C06.mkHist_valid",
     "Lena.C06.mkHist_invalid",
+    "Lena.C06.mkHist_bins",
     "Lena.C06.elem_fill_exact_cell",
     "Lena.C06.elem_fill_out_of_range",
     "Lena.C06.elem_weight_conserved",
@@ -73,8 +76,8 @@ RULE = ("cases: (bin1d) one edge array (2..12 edges; families: uniform ints/floa
         "(hist) a histogram of 1-3 dimensions (flat and nested edge formats, initial value or given bins, valid and invalid "
         "edges/bins/coordinate forms) filled with a sequence of such coordinates and integer/dyadic weights of both signs, "
         "observed after every fill (index list, changed cells, n_out_of_range), finally bins and get_nevents; (elem) the same "
-        "through the Histogram element with and without contexts. quick: about 20 k filled points per seed, thorough: "
-        "about 2 M. Non-trivial: at least one value landed in a cell and at least one search needed an interpolation guess, "
+        "through the Histogram element with and without contexts. quick: about 60 k filled points per seed, thorough: "
+        "about 2.2 M. Non-trivial: at least one value landed in a cell and at least one search needed an interpolation guess, "
         "or an exception was raised.")
 CASE_TIMEOUT = 10
 
@@ -84,10 +87,6 @@ INF = float("inf")
 
 # ----------------------------------------------------------------------------------------
 # numbers
-
-def _fr(x):
-    return Fraction(x)
-
 
 def _scaled(x):
     """exact scaled-integer form of a bin content / weight (ints and dyadic floats); anything else is shown as a
@@ -395,7 +394,7 @@ def _rand_bins(rng, shape):
 def gen_cases(ctx):
     rng = ctx.rng
     tier = ctx.tier
-    n_b, n_h, n_e = (110, 330, 60) if tier == "quick" else (9000, 34000, 5000)
+    n_b, n_h, n_e = (300, 900, 160) if tier == "quick" else (9000, 34000, 5000)
     cases = []
     for _ in range(n_b):
         cases.append(gen_bin1d_case(rng, tier))
@@ -612,13 +611,13 @@ def _mfill(f, edges, rk):
     if "s" in c:
         mc = {"s": rk(c["s"])}
         if not _is_axes(edges) and len(edges) > 0:
-            tab = [[0] + r for r in guess_path(c["s"], edges)]
+            tab = [y for r in guess_path(c["s"], edges) for y in [0] + r]
     else:
         mc = {"t": [rk(x) for x in c["t"]]}
         if _is_axes(edges) and len(edges) == len(c["t"]):
             for k, (x, a) in enumerate(zip(c["t"], edges)):
                 if len(a) > 0:
-                    tab += [[k] + r for r in guess_path(x, a)]
+                    tab += [y for r in guess_path(x, a) for y in [k] + r]
     return mc, tab
 
 
@@ -627,7 +626,8 @@ def model_requests(case):
     op = case["op"]
     if op == "bin1d":
         arr = [rk(x) for x in case["arr"]]
-        return [{"op": "bin1d", "arr": arr, "val": rk(v), "g": guess_path(v, case["arr"])} for v in case["vals"]]
+        return [{"op": "bin1d", "arr": arr, "val": rk(v), "g": [y for r in guess_path(v, case["arr"]) for y in r]}
+                for v in case["vals"]]
     edges = case["edges"]
     req = {"op": op, "edges": _medges(edges, rk), "bins": _mbins(case["bins"]), "init": _scaled(case["init"])}
     items = []
@@ -794,7 +794,7 @@ def oracle(case, res):
     if case["bins"] is not None:
         ref = _sc_nested(case["bins"])
     else:
-        ref = _sc_nested(_rand_shape_fill(shape, case["init"]))
+        ref = _sc_nested(_full_bins(shape, case["init"]))
     ref_oor = 0
     total_w = Fraction(0)
     init_total = _total(ref)
@@ -807,7 +807,8 @@ def oracle(case, res):
 
     if op == "hist":
         if res["bins0"] != ref or res["oor0"] != 0:
-            return f"new histogram: bins {res['bins0']}, n_out_of_range {res['oor0']}; expected {ref}, 0"
+            return (f"new histogram: bins {_unsc_nested(res['bins0'])}, n_out_of_range {_unsc(res['oor0'])}; expected "
+                    f"{_unsc_nested(ref)}, 0")
         for i, (f, st) in enumerate(zip(case["fills"], res["steps"])):
             xs = proper(f)
             if xs is None:
@@ -845,7 +846,8 @@ def oracle(case, res):
         if not res.get("edges_same", True):
             return f"edges changed by filling: {case['edges']!r}"
         if res["bins"] != ref or res["oor"] != ref_oor:
-            return f"final bins {res['bins']} / n_out_of_range {res['oor']} differ from the reference {ref} / {ref_oor}"
+            return (f"final bins {_unsc_nested(res['bins'])} / n_out_of_range {_unsc(res['oor'])} differ from the "
+                    f"reference {_unsc_nested(ref)} / {_unsc(ref_oor)}")
         s = _total(res["bins"])
         o = _num(res["oor"])
         if o is None or s + o != init_total + total_w:
@@ -871,17 +873,16 @@ def oracle(case, res):
             n += 1
         if res["bins"] != ref or res["oor"] != ref_oor:
             bad = _first_diff(res["bins"], ref)
-            return (f"Histogram element, edges {case['edges']!r}, values {[f['c'] for f in case['fills']]}: bins/"
-                    f"n_out_of_range {res['bins']} / {res['oor']} differ from the reference {ref} / {ref_oor} "
-                    f"(scaled by {SCALE}; first difference at {bad})")
+            vals = [f["c"].get("s", f["c"].get("t")) for f in case["fills"]]
+            return (f"Histogram element, edges {case['edges']!r}, values {vals!r} (unit weight): bins / n_out_of_range "
+                    f"{_unsc_nested(res['bins'])} / {_unsc(res['oor'])} differ from the cells that contain the values: "
+                    f"{_unsc_nested(ref)} / {_unsc(ref_oor)} (first difference at {bad})")
         s, o = _total(res["bins"]), _num(res["oor"])
         if o is None or s + o != init_total + n * SCALE:
             return f"element: sum of bins + n_out_of_range = {(s + (o or 0)) / SCALE}, filled {n} values"
         if not isinstance(res["nev"], dict) and _num(res["nev"]) != init_total + n * SCALE:
             return f"element: get_nevents(True) = {res['nev']}/{SCALE}, filled {n} values"
-        want_ctx = case["fills"][-1].get("ctx") if case["fills"] else None
-        if res["ctx"] != want_ctx or res["ctx_keys"] not in ([], ["k"]):
-            return None     # contexts are the subject of C04/C09, not of C06
+        # (the yielded context is observed for the correspondence only: contexts are the subject of C04/C09)
         if not res.get("edges_same", True):
             return f"edges changed by filling: {case['edges']!r}"
         return None
@@ -896,6 +897,10 @@ def _unsc(s):
     return int(n) if n.denominator == 1 else float(n)
 
 
+def _unsc_nested(b):
+    return [_unsc_nested(x) for x in b] if isinstance(b, list) else _unsc(b)
+
+
 def _first_diff(a, b, pre=()):
     if isinstance(a, list) and isinstance(b, list) and len(a) == len(b):
         for i, (x, y) in enumerate(zip(a, b)):
@@ -906,10 +911,10 @@ def _first_diff(a, b, pre=()):
     return None if a == b else list(pre)
 
 
-def _rand_shape_fill(shape, v):
+def _full_bins(shape, v):
     if not shape:
         return v
-    return [_rand_shape_fill(shape[1:], v) for _ in range(shape[0])]
+    return [_full_bins(shape[1:], v) for _ in range(shape[0])]
 
 
 # ----------------------------------------------------------------------------------------
